@@ -80,6 +80,19 @@ func (gn *graphNode) getGenericHelper() *genericHelper {
 		return nil
 	}
 
+	if ret == nil {
+		// a passthrough node whose own type has not been inferred yet has no helper. With an input or
+		// output key its keyed side is a map[string]any whatever passes through it, and that side is
+		// asked for while the graph is built (the run-time check of an edge into the node, the type a
+		// neighbouring passthrough node takes over): start from an empty helper instead of
+		// dereferencing nil; the other side stays empty until the node's type is inferred, and a
+		// node whose type never is inferred is refused by compile.
+		if gn.nodeInfo == nil || (len(gn.nodeInfo.inputKey) == 0 && len(gn.nodeInfo.outputKey) == 0) {
+			return nil
+		}
+		ret = &genericHelper{}
+	}
+
 	if gn.nodeInfo != nil {
 		if len(gn.nodeInfo.inputKey) > 0 {
 			ret = ret.forMapInput()
